@@ -129,6 +129,7 @@ def run(tier: str, replay: str | None = None):
         if "value_seed" in inp:
             value_pairs = inp["value_pairs"]
             vseed = inp["value_seed"]
+            replay_matrix = inp.get("value_matrix", False)
         if "emit_case" in inp:
             ecases = [inp["emit_case"]]
         do_dispatch = "dispatch" in inp
@@ -155,9 +156,10 @@ def run(tier: str, replay: str | None = None):
     for k, sh in enumerate(shards):
         req = {"programs": sh}
         if value_pairs:
-            req["value_seed"] = vseed * 100 + k
+            req["value_seed"] = vseed if replay else vseed * 100 + k
             req["value_pairs"] = value_pairs // nshards if not replay else (value_pairs if k == 0 else 0)
         if k == 0:
+            req["value_matrix"] = bool(value_pairs) and (not replay or bool(locals().get("replay_matrix")))
             req["emit_cases"] = ecases
             req["dispatch"] = do_dispatch
         reqs.append(req)
@@ -229,7 +231,7 @@ def run(tier: str, replay: str | None = None):
         if fid:
             rep.known(fid, next(f["what"] for f in kf if f["id"] == fid))
             continue
-        rep.violation({"kind": "failing-input", "input": {"value_seed": vs, "value_pairs": vp}, "observed": pb,
+        rep.violation({"kind": "failing-input", "input": {"value_seed": vs, "value_pairs": vp, "value_matrix": vs % 100 == 0}, "observed": pb,
                        "expected": "the operation returns a result for well-formed values", "how_to_run": "./check C12 --replay <this file>"})
         if len(seen_v) >= 5:
             break
